@@ -4,6 +4,7 @@ import (
 	"encoding/json"
 	"fmt"
 	"io"
+	"strings"
 )
 
 // "hist" cases: one profile, a history of data documents run through ONE compiled profile.
@@ -32,8 +33,28 @@ func genHist(g *G, n int, out io.Writer) {
 			pool = append(pool, g.graph(2+g.n(5), 0.4).RenderFlat())
 			kinds = append(kinds, "graph")
 		}
+		// lexical documents: with source information (root location), and with source maps only
+		lex := func(withInfo bool, root string) string {
+			nodes := []map[string]any{
+				{"@id": nodeId(900), "@type": []string{NS + "T"}},
+				{"@id": nodeId(901), "@type": []string{SM + "SourceMap"}, SM + "lexical": []any{map[string]any{"@id": nodeId(902)}}},
+				{"@id": nodeId(902), SM + "element": nodeId(900), SM + "value": fmt.Sprintf("[(%d,1)-(%d,9)]", 1+g.n(50), 60+g.n(50))},
+			}
+			if withInfo {
+				nodes = append(nodes, map[string]any{"@id": nodeId(903), "@type": []string{DOC + "BaseUnitSourceInformation"}, DOC + "rootLocation": root})
+			}
+			b, _ := json.Marshal(nodes)
+			return string(b)
+		}
+		pool = append(pool, lex(true, "file:///first.raml"), lex(false, ""), lex(true, "file:///second.raml"), lex(false, ""))
+		kinds = append(kinds, "lexical-info", "lexical-noinfo", "lexical-info", "lexical-noinfo")
 		pool = append(pool, "[]", "{\"@id\":\"http://a\",\"@type\":5}", "{ not json", "")
 		kinds = append(kinds, "empty", "jsonld-reject", "undecodable", "empty-text")
+		// long unreadable documents whose tail, read on its own, would be a JSON value; and blank/truncated ones
+		long1 := "{\"a\": tru" + strings.Repeat(" ", 300+g.n(900)) + "[]" + strings.Repeat(" ", g.n(700)) + " {} "
+		long2 := "#%RAML 1.0\ntitle: api\n" + strings.Repeat("# padding line\n", 30+g.n(80)) + "example: {\"@id\": \"http://x\"}\n" + strings.Repeat("x", g.n(900)) + "\n[]\n"
+		pool = append(pool, long1, long2, "   \n ", "[{\"@id\":\"http://a\", ")
+		kinds = append(kinds, "undecodable", "undecodable", "empty-text", "undecodable")
 		length := 4 + g.n(6)
 		for k := 0; k < length; k++ {
 			j := g.n(len(pool))
